@@ -90,7 +90,8 @@ impl Ctx {
             let msg = CleartextSignedMessage::new_many(&text, |st| {
                 handed = Some(st.to_string());
                 let a = self.config(HashAlgorithm::Sha256).sign(&self.rk, &Password::empty(), st.as_bytes())?;
-                let mut c = { use pgp::types::SigningKey; SignatureConfig::v4(SignatureType::Text, self.real.primary_key.algorithm(), self.real.primary_key.hash_alg()) };
+                // (another digest than the first signer's: the document then announces two hash names)
+                let mut c = SignatureConfig::v4(SignatureType::Text, self.real.primary_key.algorithm(), if t.len() % 2 == 0 { HashAlgorithm::Sha512 } else { HashAlgorithm::Sha384 });
                 c.hashed_subpackets = vec![Subpacket::regular(SubpacketData::SignatureCreationTime(Timestamp::from_secs(1_700_000_000)))?, Subpacket::regular(SubpacketData::IssuerFingerprint(self.real.primary_key.fingerprint()))?];
                 let b = c.sign(&self.real.primary_key, &Password::empty(), st.as_bytes())?;
                 Ok(vec![a, b])
